@@ -177,7 +177,7 @@ def select(prop, tier, seed, sel):
     import random
     rnd = random.Random(seed)
     keep = set([(0, 0), (15, 15), (0, 1), (14, 15), (0, 2), (7, 9)])
-    deep = [(pr, cr) for (pr, cr) in PAIRS if cr - pr >= 3]
+    deep = [(pr, cr) for (pr, cr) in PAIRS if 3 <= cr - pr <= 8]   # deeper pairs take minutes each: thorough tier only
     keep.update(rnd.sample(deep, 4))
     out = []
     for j in sel:
@@ -185,3 +185,47 @@ def select(prop, tier, seed, sel):
             continue
         out.append(j)
     return out
+
+C17_IT = "(h3v_live == h3v_live0 + (iter._cellIter._bboxes != (void*)0 ? 1 : 0) && " \
+         "(iter.cell == 0 ==> iter._cellIter._bboxes == (void*)0) && iter.error <= 15 && (iter.error != 0 ==> iter.cell == 0) && " \
+         "(h3v_failed ==> (iter.cell == 0 && iter.error == 13)) && " \
+         "(iter._cellIter.cell == 0 ==> iter._cellIter._bboxes == (void*)0) && iter._cellIter.error <= 15 && " \
+         "(iter._cellIter.error != 0 ==> iter._cellIter.cell == 0) && (h3v_failed ==> iter._cellIter.error == 13) && " \
+         "(iter._cellIter.cell != 0 ==> (S_RES(iter._cellIter.cell) <= iter._cellIter._res && iter._cellIter._res <= 15)))"
+J(name="c17.polygonToCellsExperimental", props=["C17", "C15", "C18"], harness="c17.c", entry="h_polygonToCellsExperimental", alloc=True,
+  enforce=["polygonToCellsExperimental/polygonToCellsExperimental_c17"],
+  replace=["iterInitPolygon/iterInitPolygon_c17", "iterStepPolygon/iterStepPolygon_c17r", "iterDestroyPolygon/iterDestroyPolygon_c17r"],
+  loops=[dict(fn="polygonToCellsExperimental", loop=0, locals=["i", "iter", "size", "out"],
+              assigns="i, iter, h3v_live, __CPROVER_object_whole(out)",
+              inv="0 <= i && i <= size && " + C17_IT)])
+J(name="c17.maxPolygonToCellsSizeExperimental", props=["C17", "C15", "C18"], harness="c17.c", entry="h_maxPolygonToCellsSizeExperimental",
+  alloc=True, object_bits=12, enforce=["maxPolygonToCellsSizeExperimental/maxPolygonToCellsSizeExperimental_c17"],
+  exclude=[(r"maxPolygonToCellsSizeExperimental\.overflow.*\*out \+ childrenSize",
+            "the running total of children counts stays below the number of cells only because the iterator yields disjoint cells; "
+            "that is a geometric fact outside this technique")],
+  replace=["_iterInitPolygonCompact/_iterInitPolygonCompact_c17", "iterStepPolygonCompact/iterStepPolygonCompact_c17r",
+           "cellToChildrenSize/cellToChildrenSize_frame"],
+  loops=[dict(fn="maxPolygonToCellsSizeExperimental", loop=0, locals=["iter", "polygonBBoxAreaKm2"],
+              assigns="iter._res", inv="iter._res >= 0 && iter._res <= 15 && iter._bboxes == __CPROVER_loop_entry(iter._bboxes) && "
+              "iter.cell == __CPROVER_loop_entry(iter.cell) && iter.error == __CPROVER_loop_entry(iter.error)", dec="iter._res"),
+         dict(fn="maxPolygonToCellsSizeExperimental", loop=1, locals=["iter", "childrenSize", "out"],
+              assigns="iter, childrenSize, *out, h3v_live",
+              inv="h3v_live == h3v_live0 + (iter._bboxes != (void*)0 ? 1 : 0) && "
+                  "(iter.cell == 0 ==> iter._bboxes == (void*)0) && iter.error <= 15 && (iter.error != 0 ==> iter.cell == 0) && !h3v_failed && iter.error != 13")])
+J(name="c17.iterInitPolygonCompact", props=["C17", "C15"], harness="c17_static.c", entry="h_iterInitPolygonCompact", alloc=True, object_bits=12,
+  include_src="polyfill.c", src_macro="H3V_POLYFILL_C",
+  enforce=["_iterInitPolygonCompact/_iterInitPolygonCompact_c17"], replace=["bboxesFromGeoPolygon/bboxesFromGeoPolygon_frame"])
+J(name="c17.iterDestroyPolygonCompact", props=["C17"], harness="c17.c", entry="h_iterDestroyPolygonCompact", alloc=True,
+  enforce=["iterDestroyPolygonCompact/iterDestroyPolygonCompact_c17"])
+J(name="c17.iterDestroyPolygon", props=["C17"], harness="c17.c", entry="h_iterDestroyPolygon", alloc=True,
+  enforce=["iterDestroyPolygon/iterDestroyPolygon_c17"], replace=["iterDestroyPolygonCompact/iterDestroyPolygonCompact_c17"])
+J(name="c17.iterStepPolygon", props=["C17"], harness="c17.c", entry="h_iterStepPolygon", alloc=True,
+  enforce=["iterStepPolygon/iterStepPolygon_c17"],
+  replace=["iterStepPolygonCompact/iterStepPolygonCompact_c17", "iterStepChild/iterStepChild_frame", "_iterInitParent/_iterInitParent_frame"])
+J(name="c17.iterInitPolygon", props=["C17", "C15"], harness="c17.c", entry="h_iterInitPolygon", alloc=True,
+  enforce=["iterInitPolygon/iterInitPolygon_c17"],
+  replace=["iterInitPolygonCompact/iterInitPolygonCompact_c17", "_iterInitParent/_iterInitParent_frame"])
+
+
+J(name="c17.iterInitParent.frame", props=["C17"], harness="c17.c", entry="h_iterInitParent_frame",
+  enforce=["_iterInitParent/_iterInitParent_frame"], unwind=17, alloc=True)
